@@ -105,7 +105,7 @@ def check(case, out):
     out.label(*TP.tree_labels(tree, R))
     out.label("alg:" + case["alg"], "trait:" + case["trait"])
     A = IR.build(tree)
-    if TP.scalar_invalidated_annotations(A) & {"PSD", "Unitary", "SelfAdjoint"}:
+    if TP.scalar_invalidated_annotations(A) & {"PSD", "Unitary", "SelfAdjoint"} or TP.contaminated_by_scalar(tree, ("PSD", "Unitary", "SelfAdjoint")):
         out.inconclusive += 1
         out.label("contaminated:F-C05-scalar")
         return
